@@ -197,18 +197,19 @@ func runC03(w *core.World, r *core.Report) {
 
 	// ---- R3 -----------------------------------------------------------------------------------
 	run := w.Func("vm", "(*Vm).Run")
+	step := vmStepFn(w) // Run, or the helper of Run that holds the per-instruction flag protocol
 	n3 := 0
 	for _, fn := range w.LibFuncs {
 		for _, c := range flagConstCalls(fn, fIn, stResetFlag) {
 			n3++
 			key := core.QName(fn) + ": ResetFlag(FLAG_INMATCH)"
-			if fn != run {
+			if fn != step || step == nil {
 				r.Bad("R3", key, c.Pos(), "INMATCH is cleared outside Vm.Run's resume block: a later INCMP before the next HALT can match again")
 				continue
 			}
 			// behind the true edge of ResetFlag(FLAG_WAIT)
 			cut := core.NewCut()
-			for _, wc := range flagConstCalls(run, fWait, stResetFlag) {
+			for _, wc := range flagConstCalls(step, fWait, stResetFlag) {
 				if v := core.CallValue(wc); v != nil {
 					cut.AddEdge(core.EdgesWhere(v, true)...)
 				}
@@ -255,15 +256,39 @@ func runC03(w *core.World, r *core.Report) {
 		// the return after it carries MOVE _catch
 		okMove := false
 		moveOp, _ := constOf(w, r, "vm", "MOVE")
-		for _, c := range core.CallsTo(dead, "vm.NewLine") {
+		isCatchLine := func(c ssa.CallInstruction) bool {
+			if !core.IsCallTo(c, "vm.NewLine") {
+				return false
+			}
 			a := core.CallArgs(c)
 			if len(a) < 3 {
-				continue
+				return false
 			}
 			if op, ok := core.ConstInt(a[1]); !ok || op != moveOp {
-				continue
+				return false
 			}
-			if sliceHasConstString(a[2], "_catch") {
+			return sliceHasConstString(a[2], "_catch")
+		}
+		for _, c := range core.Calls(dead) {
+			producer := isCatchLine(c)
+			// a helper of package vm that returns nothing but such a line
+			if g := core.StaticCallee(c); !producer && g != nil && core.PkgOf(g) == "vm" && len(g.Blocks) > 0 && g.Signature.Results().Len() == 1 {
+				all, n := true, 0
+				for _, in := range allInstrs(g) {
+					ret, ok := in.(*ssa.Return)
+					if !ok {
+						continue
+					}
+					for _, src := range core.Sources(ret.Results[0]) {
+						n++
+						if gc, ok := src.(*ssa.Call); !ok || !isCatchLine(gc) {
+							all = false
+						}
+					}
+				}
+				producer = all && n > 0
+			}
+			if producer && core.CallValue(c) != nil {
 				// it reaches a return as result 0
 				for v := range core.Forward(core.CallValue(c), nil) {
 					if refs := v.Referrers(); refs != nil {
